@@ -209,3 +209,179 @@ func checkInRangeRaw(c *Ctx, rule string) {
 	c.Stats["inrange_raw_cases"] = n
 	c.Obl(rule, "InRange.EvalRaw honours exclusive/inclusive bounds on both sides (20 cases)", p.Pos(fs.Decl), len(bad) == 0, strings.Join(bad, "; "))
 }
+
+// checkBinaryRawAgrees (.8): for every token Binary.RawOp accepts, Binary.EvalRaw (comparison
+// of the stored encodings) and Binary.eval (comparison of the values) apply the same relation:
+// both are folded with the outcome of the comparison being <, == and >.  (That the byte order of
+// the encodings is the value order is C13/C28; this decides that the two switches agree.)
+func checkBinaryRawAgrees(c *Ctx, rule string) {
+	p := c.P
+	rawOp := c.method(rule, "compile/ast", "Binary", "RawOp")
+	evalRaw := c.method(rule, "compile/ast", "Binary", "EvalRaw")
+	eval := c.method(rule, "compile/ast", "Binary", "eval")
+	tokF := p.Field("compile/ast", "Binary", "Tok")
+	if rawOp == nil || evalRaw == nil || eval == nil || !c.need(rule, "compile/ast.Binary.Tok", tokF) {
+		return
+	}
+	// tokens accepted by RawOp: case lists whose body returns true
+	info := rawOp.Info()
+	var toks []constant.Value
+	names := map[string]string{}
+	ast.Inspect(rawOp.Body, func(nd ast.Node) bool {
+		cc, ok := nd.(*ast.CaseClause)
+		if !ok {
+			return true
+		}
+		retTrue := false
+		for _, st := range cc.Body {
+			if r, ok := st.(*ast.ReturnStmt); ok && len(r.Results) == 1 {
+				if v := ConstVal(info, r.Results[0]); v != nil && v.Kind() == constant.Bool && constant.BoolVal(v) {
+					retTrue = true
+				}
+			}
+		}
+		if retTrue {
+			for _, e := range cc.List {
+				if v := ConstVal(info, e); v != nil {
+					toks = append(toks, v)
+					names[v.ExactString()] = exprStr(e)
+				}
+			}
+		}
+		return true
+	})
+	c.Floor(rule, len(toks), 2, "tokens accepted by Binary.RawOp")
+	lhsF, rhsF := p.Field("compile/ast", "Binary", "Lhs"), p.Field("compile/ast", "Binary", "Rhs")
+	if !c.need(rule, "compile/ast.Binary.Lhs", lhsF) || !c.need(rule, "compile/ast.Binary.Rhs", rhsF) {
+		return
+	}
+	symL, symR := constant.MakeString("<left operand>"), constant.MakeString("<right operand>")
+	fold := func(fs *FuncSrc, t constant.Value, cmp int) (constant.Value, string) {
+		fi := fs.Info()
+		sig := fs.Obj.Type().(*types.Signature)
+		env := &AbsEnv{Info: fi, Locals: map[types.Object]constant.Value{}}
+		// value parameters (lhs, rhs) in order
+		k := 0
+		for i := 0; i < sig.Params().Len(); i++ {
+			if named, ok := sig.Params().At(i).Type().(*types.Named); ok && named.Obj().Name() == "Value" {
+				env.Locals[sig.Params().At(i)] = []constant.Value{symL, symR}[k%2]
+				k++
+			}
+		}
+		// order of two operands: -1/0/+1 from cmp, nil if they are not the two operands
+		order := func(info *types.Info, a, b ast.Expr, ev func(ast.Expr) constant.Value) (int, bool) {
+			x, y := ev(a), ev(b)
+			if x == nil || y == nil || x.Kind() != constant.String || y.Kind() != constant.String {
+				return 0, false
+			}
+			xs, ys := constant.StringVal(x), constant.StringVal(y)
+			l, r := constant.StringVal(symL), constant.StringVal(symR)
+			switch {
+			case xs == l && ys == r:
+				return cmp, true
+			case xs == r && ys == l:
+				return -cmp, true
+			}
+			return 0, false
+		}
+		env.Inline = func(f *types.Func) *FuncSrc {
+			switch f.Name() {
+			case "packedCmp", "strictCompare", "OpIs", "OpIsnt", "PackBool":
+				return nil
+			}
+			src := p.Src(f)
+			if src == nil || src.Body == nil {
+				return nil
+			}
+			return src
+		}
+		env.AtomEnv = func(en *AbsEnv, e ast.Expr) (constant.Value, bool) {
+			info := en.Info
+			if FieldOf(info, e) == tokF {
+				return t, true
+			}
+			ev := func(x ast.Expr) constant.Value { return en.expr(x) }
+			switch x := e.(type) {
+			case *ast.BinaryExpr:
+				if x.Op == token.EQL || x.Op == token.NEQ {
+					if o, ok := order(info, x.X, x.Y, ev); ok {
+						return constant.MakeBool((o == 0) == (x.Op == token.EQL)), true
+					}
+				}
+			case *ast.CallExpr:
+				if tv, ok := info.Types[x.Fun]; ok && tv.IsType() {
+					return nil, false
+				}
+				// a.Lhs.EvalRaw(c) / a.Rhs.EvalRaw(c)
+				if sel, ok := x.Fun.(*ast.SelectorExpr); ok {
+					switch FieldOf(info, sel.X) {
+					case lhsF:
+						return symL, true
+					case rhsF:
+						return symR, true
+					}
+				}
+				cal := Callee(info, x)
+				if cal == nil {
+					return nil, true
+				}
+				switch cal.Name() {
+				case "PackBool":
+					if len(x.Args) == 1 {
+						return ev(x.Args[0]), true
+					}
+				case "packedCmp", "strictCompare":
+					if len(x.Args) == 2 {
+						if o, ok := order(info, x.Args[0], x.Args[1], ev); ok {
+							return constant.MakeInt64(int64(o)), true
+						}
+					}
+					return nil, true
+				case "OpIs", "OpIsnt":
+					if len(x.Args) == 2 {
+						if o, ok := order(info, x.Args[0], x.Args[1], ev); ok {
+							return constant.MakeBool((o == 0) == (cal.Name() == "OpIs")), true
+						}
+					}
+					return nil, true
+				case "Not":
+					if sel, ok := x.Fun.(*ast.SelectorExpr); ok && len(x.Args) == 0 {
+						if v := ev(sel.X); v != nil && v.Kind() == constant.Bool {
+							return constant.MakeBool(!constant.BoolVal(v)), true
+						}
+						return nil, true
+					}
+				}
+			}
+			return nil, false
+		}
+		r := env.run(fs.Body)
+		if r.Panics {
+			return nil, "panics (token not handled)"
+		}
+		if r.Unknown != "" || len(r.Returns) != 1 || r.Returns[0] == nil || r.Returns[0].Kind() != constant.Bool {
+			return nil, "cannot be folded " + r.Unknown
+		}
+		return r.Returns[0], ""
+	}
+	n := 0
+	for _, t := range toks {
+		var bad []string
+		for _, cmp := range []int{-1, 0, 1} {
+			n++
+			rv, rwhy := fold(evalRaw, t, cmp)
+			ev, ewhy := fold(eval, t, cmp)
+			rel := map[int]string{-1: "<", 0: "==", 1: ">"}[cmp]
+			switch {
+			case rwhy != "":
+				bad = append(bad, "EvalRaw "+rwhy)
+			case ewhy != "":
+				bad = append(bad, "eval "+ewhy)
+			case constant.BoolVal(rv) != constant.BoolVal(ev):
+				bad = append(bad, fmt.Sprintf("left %s right: stored encodings give %v, values give %v", rel, constant.BoolVal(rv), constant.BoolVal(ev)))
+			}
+		}
+		c.Obl(rule, "Binary "+names[t.ExactString()]+": raw and ordinary evaluation apply the same relation", p.Pos(evalRaw.Decl), len(bad) == 0, strings.Join(uniqStrings(bad), "; "))
+	}
+	c.Stats["binary_raw_cases"] = n
+}
